@@ -58,6 +58,9 @@ def enumerated(chk, rng):
     the response shapes and OrderFree on each.  -> list of (doc, verdict, shapes)"""
     if chk.quick:
         plan = [(rng.choice(COMBOS[f]), 1) for f in ("general", "merge", "dirs")]
+        # one merge scope in which F1 can really be spread below `o` (otherwise every document of the scope also breaks
+        # PossibleFragmentSpreads and the merge rule is never the only broken one)
+        plan.append((rng.choice([c for c in COMBOS["merge"] if c[1] != "Obj2" and c not in [p[0] for p in plan]]), 1))
     else:
         deep = rng.sample(COMBOS["general"], 3) + rng.sample(COMBOS["dirs"], 2)
         plan = [(c, 2 if c in deep else 1) for f in ("general", "merge", "dirs") for c in COMBOS[f]]
